@@ -259,6 +259,95 @@ type restoreObs struct {
 	root   *big.Int
 	ents   map[string]mzrun.EntryView
 	tamper int // see BinaryRun.tamper_wire
+	ep     int // entry point, see BinaryRun.rrestore
+	mk     []mkObs
+	ps     []pObs
+}
+
+// pObs: Proof / JSONLDType of one path on a restored merklizer (compared with the model in the shards)
+type pObs struct {
+	parts   []any
+	proofOK bool
+	ex      bool
+	vh      *big.Int
+	dt      *string
+}
+
+func pathObs(m *merklize.Merklizer, paths [][]any) []pObs {
+	var out []pObs
+	for _, parts := range paths {
+		skip := false
+		for _, p := range parts {
+			if i, ok := p.(int); ok && i < 0 {
+				skip = true
+			}
+		}
+		if skip {
+			continue
+		}
+		po := pObs{parts: parts}
+		g := mzrun.Guard(10*time.Second, func() error {
+			p, err := m.Options().NewPath(parts...)
+			if err != nil {
+				return err
+			}
+			if pr, v, err := m.Proof(context.Background(), p); err == nil && pr != nil {
+				po.proofOK, po.ex = true, pr.Existence
+				if v != nil {
+					h, herr := v.MtEntry()
+					if herr != nil {
+						return herr
+					}
+					po.vh = h
+				}
+			}
+			if dt, err := m.JSONLDType(p); err == nil {
+				po.dt = &dt
+			}
+			return nil
+		})
+		if g.Class == "ok" {
+			out = append(out, po)
+		}
+	}
+	return out
+}
+
+func (d *drv) somePaths(ents map[string]mzrun.EntryView) [][]any {
+	ps := d.pathsFor(ents)
+	if len(ps) <= 8 {
+		return ps
+	}
+	return append(append([][]any{}, ps[:5]...), ps[len(ps)-3:]...)
+}
+
+// mkObs: MkValue(v).MtEntry() on a restored merklizer (compared with the model in the shards)
+type mkObs struct {
+	v     any
+	class string // ok | err | panic
+	h     *big.Int
+}
+
+func mkValues(m *merklize.Merklizer) []mkObs {
+	var out []mkObs
+	for _, v := range []any{int64(-5), "mk value", true, big.NewInt(-12345)} {
+		o := mkObs{v: v}
+		g := mzrun.Guard(10*time.Second, func() error {
+			x, err := m.MkValue(v)
+			if err != nil {
+				return err
+			}
+			h, err := x.MtEntry()
+			o.h = h
+			return err
+		})
+		o.class = g.Class
+		if g.Class == "ok" && o.h == nil {
+			o.class = "panic"
+		}
+		out = append(out, o)
+	}
+	return out
 }
 
 type singleObs struct {
@@ -753,10 +842,13 @@ func (d *drv) scenario(in Input) {
 	m2, o2 := fromBytes(b1, optsFor(in.Cfg)...)
 	if o2.Class != "ok" {
 		d.rep.Fail("c13-restore-"+o2.Class, "MerklizerFromBytes(own MarshalBinary) failed: "+o2.Msg, in)
+		// the model predicts success: the case goes into the shards with the observed error
+		s.rest = append(s.rest, restoreObs{cfg: b2i(in.Cfg), tree: "none", ok: false})
+		d.scens = append(d.scens, s)
 		return
 	}
 	ents2 := entsOf(m2)
-	s.rest = append(s.rest, restoreObs{cfg: b2i(in.Cfg), tree: "none", ok: true, root: m2.Root().BigInt(), ents: ents2})
+	s.rest = append(s.rest, restoreObs{cfg: b2i(in.Cfg), tree: "none", ok: true, root: m2.Root().BigInt(), ents: ents2, mk: mkValues(m2), ps: pathObs(m2, d.somePaths(ents1))})
 	if m1.Root().BigInt().Cmp(m2.Root().BigInt()) != 0 {
 		d.rep.Fail("c13-root", fmt.Sprintf("root %s became %s", m1.Root().BigInt(), m2.Root().BigInt()), in)
 	}
@@ -829,6 +921,7 @@ func (d *drv) scenario(in Input) {
 			if mdir.VerifSafeMode() != m1.VerifSafeMode() {
 				d.rep.Fail("c13-safemode", "direct UnmarshalBinary: safe mode flag changed", in)
 			}
+			s.rest = append(s.rest, restoreObs{ep: 1, tree: "none", ok: true, root: mdir.Root().BigInt(), ents: entsOf(&mdir), mk: mkValues(&mdir), ps: pathObs(&mdir, d.somePaths(ents1))})
 			d.fullObserve(s, m1, &mdir, want, ents1, "zero-value UnmarshalBinary")
 		}
 		// encoding/gob on the Merklizer itself
@@ -847,6 +940,7 @@ func (d *drv) scenario(in Input) {
 				d.rep.Fail("c13-root", "gob round trip of the Merklizer restores another root", in)
 			}
 			d.compareEntries(s, ents1, entsOf(&mg), want, "gob round trip")
+			s.rest = append(s.rest, restoreObs{ep: 2, tree: "none", ok: true, root: mg.Root().BigInt(), ents: entsOf(&mg), mk: mkValues(&mg), ps: pathObs(&mg, d.somePaths(ents1))})
 			d.fullObserve(s, m1, &mg, want, ents1, "gob round trip")
 		}
 	}
@@ -856,6 +950,7 @@ func (d *drv) scenario(in Input) {
 			d.rep.Fail("c13-restore-"+o.Class, "MerklizerFromBytes(blob) without options failed: "+o.Msg, in)
 		} else {
 			d.compareEntries(s, ents1, entsOf(mb), want, "MerklizerFromBytes without options")
+			s.rest = append(s.rest, restoreObs{ep: 3, tree: "none", ok: true, root: mb.Root().BigInt(), ents: entsOf(mb), mk: mkValues(mb), ps: pathObs(mb, d.somePaths(ents1))})
 			d.fullObserve(s, m1, mb, want, ents1, "MerklizerFromBytes without options")
 		}
 	}
@@ -1539,9 +1634,32 @@ func (s *scen) coq(f *coqgen.File, id int) string {
 				kk, _ := new(big.Int).SetString(k, 10)
 				l = append(l, fmt.Sprintf("(%s, %s)", coqgen.Limbs(kk), mzrun.EntryCoq(f, r.ents[k])))
 			}
-			o = fmt.Sprintf("(BOOk %s [%s])", coqgen.Limbs(r.root), strings.Join(l, ";\n    "))
+			var mk []string
+			for _, x := range r.mk {
+				ob := "MKErr"
+				switch x.class {
+				case "ok":
+					ob = "(MKOk " + coqgen.Limbs(x.h) + ")"
+				case "err":
+				default:
+					ob = "MKPanic"
+				}
+				mk = append(mk, fmt.Sprintf("(%s, %s)", mzrun.ValueCoq(f, x.v), ob))
+			}
+			var ps []string
+			for _, x := range r.ps {
+				vh, dt := "None", "None"
+				if x.vh != nil {
+					vh = "(Some " + coqgen.Limbs(x.vh) + ")"
+				}
+				if x.dt != nil {
+					dt = "(Some " + f.Str(*x.dt) + ")"
+				}
+				ps = append(ps, fmt.Sprintf("mkpo %s %s %s %s %s", mzrun.PartsCoq(f, x.parts), coqgen.Bool(x.proofOK), coqgen.Bool(x.ex), vh, dt))
+			}
+			o = fmt.Sprintf("(BOOk %s [%s] [%s]\n    [%s])", coqgen.Limbs(r.root), strings.Join(l, ";\n    "), strings.Join(mk, "; "), strings.Join(ps, ";\n     "))
 		}
-		rs = append(rs, fmt.Sprintf("mkrr %d %s %d %s", r.cfg, t, r.tamper, o))
+		rs = append(rs, fmt.Sprintf("mkrr %d %d %s %d %s", r.ep, r.cfg, t, r.tamper, o))
 	}
 	var ss []string
 	for _, x := range s.singles {
